@@ -6,7 +6,7 @@ from ..core import rule
 from ..index import AnalysisError, dotted, src, walk_no_nested, names_in
 from ..cfg import CFG, const_env_step, eval3, UNK, OTHER
 from ..domains import linform, Lin
-from ..util import reach_expr, pred_is, node_calls, own_expr, last_name, calls_named, assigned_names, returned_names, is_call_to, enclosing_loops, loop_targets
+from ..util import interval_of_name_at, reach_expr, pred_is, node_calls, own_expr, last_name, calls_named, assigned_names, returned_names, is_call_to, enclosing_loops, loop_targets
 from .slots import LOADER, BASEDEMUX, FQITER, FQHANDLE, HANDLELIM, P
 
 DEMUX = P + 'modularDemultiplexer/demux.py'
@@ -228,6 +228,24 @@ def r3(ctx):
         table = src(sub.value)
         lo, hi = bounds(sub.slice, table)
         tl = table_len(table)
+        if isinstance(sub.slice, ast.Name) and tl is not None:
+            # the index is a local clamped by if-tests (or min/max) before the lookup: path-sensitive interval analysis over the function
+            def vb(e):
+                b_ = bounds(e, table)
+                if isinstance(e, ast.Call) and dotted(e.func) == 'ord':
+                    return (0, None)
+                cv = lambda x: x.const if x is not None and x.is_const() else None
+                lo_, hi_ = cv(b_[0]), cv(b_[1])
+                if isinstance(e, ast.BinOp) and isinstance(e.op, (ast.Add, ast.Sub)) and isinstance(e.left, ast.Call) and dotted(e.left.func) == 'ord' and isinstance(e.right, ast.Constant):
+                    k_ = e.right.value if isinstance(e.op, ast.Add) else -e.right.value
+                    return (k_, None)
+                return (lo_, hi_)
+            ivs = interval_of_name_at(f.body, sub.slice.id, sub, vb)
+            if ivs:
+                los = [iv[0] for iv in ivs]
+                his = [iv[1] for iv in ivs]
+                lo = Lin(const=min(los)) if all(x is not None for x in los) else None
+                hi = Lin(const=max(his)) if all(x is not None for x in his) else None
         N = Lin(const=tl) if tl is not None else Lin({'N': 1})
         ok_lo = lo is not None and lo.is_const() and lo.const >= 0
         ok_hi = hi is not None and (hi - (N - Lin(const=1))).is_const() and (hi - (N - Lin(const=1))).const <= 0
@@ -236,7 +254,11 @@ def r3(ctx):
                  key='encoder-index-in-table', witness=None if ok_lo and ok_hi else {'abstract': f'upper bound {hi} vs N-1'},
                  what='phredToFastqHeaderSafeQualities: letter-table index not clamped into the table')
         # offset
-        off = [n for n in walk_no_nested(sub.slice) if isinstance(n, ast.BinOp) and isinstance(n.op, ast.Sub) and 'ord(' in src(n.left) and isinstance(n.right, ast.Constant)]
+        off_roots = [sub.slice]
+        if isinstance(sub.slice, ast.Name):
+            off_roots = [s_.value for s_ in walk_no_nested(f) if isinstance(s_, ast.Assign) and len(s_.targets) == 1 and src(s_.targets[0]) == sub.slice.id]
+        off = [n for r_ in off_roots for n in walk_no_nested(r_) if isinstance(n, ast.BinOp) and isinstance(n.op, ast.Sub) and 'ord(' in src(n.left) and isinstance(n.right, ast.Constant)]
+        off += [r_ for r_ in off_roots if isinstance(r_, ast.BinOp) and isinstance(r_.op, ast.Sub) and 'ord(' in src(r_.left) and isinstance(r_.right, ast.Constant) and not any(r_ is o_ for o_ in off)]
         g = ctx.fn(BASEDEMUX, 'fastqHeaderSafeQualitiesToPhred')
         dec = [n for n in walk_no_nested(g) if isinstance(n, ast.BinOp) and isinstance(n.op, ast.Add) and '.index(' in src(n.left) and isinstance(n.right, ast.Constant)]
         dtab = [src(c.func.value) for c in walk_no_nested(g) if isinstance(c, ast.Call) and isinstance(c.func, ast.Attribute) and c.func.attr == 'index']
@@ -353,7 +375,11 @@ def r4(ctx):
     # IlluminaBaseDemultiplexer.demultiplex (non-inherited arm) serialises with the original sequence / qualities
     b = ctx.fn(BASEDEMUX, 'IlluminaBaseDemultiplexer.demultiplex')
     calls = [c for c in walk_no_nested(b) if isinstance(c, ast.Call) and isinstance(c.func, ast.Attribute) and c.func.attr == 'asFastq']
-    ok = len(calls) == 1 and [src(x) for x in calls[0].args] == ['record.sequence', 'record.plus', 'record.qual']
+    def orig_fields(c):
+        a_ = c.args
+        return len(a_) == 3 and all(isinstance(x, ast.Attribute) and isinstance(x.value, ast.Name) for x in a_) and len({x.value.id for x in a_}) == 1 \
+            and [x.attr for x in a_] == ['sequence', 'plus', 'qual']
+    ok = len(calls) >= 1 and all(orig_fields(c) for c in calls)
     ctx.emit('C01-R4', ok, BASEDEMUX, b, 'base demultiplexer (reject path) serialises the original sequence, plus line and qualities: ' + (src(calls[0])[-60:] if calls else '-'), key='base-demux-original-fields')
     # FastqHandle.write writes str(record)
     w = ctx.fn(FQHANDLE, 'FastqHandle.write')
